@@ -38,6 +38,36 @@ def shift_mask(n, param):
     return None
 
 
+def shift_mask_semantic(F, fn):
+    """(shift, mask) of a pure bit-field extractor, obtained by interpreting it on the 32 one-hot words and on all-ones
+    (any implementation that extracts a contiguous field - helper functions, computed masks - is accepted)"""
+    from ..minieval import Mini, Panic, Unsupported
+    FB = {"wow_world_base": F}
+    try:
+        ev = lambda v: Mini(FB, "wow_world_base").call_fn(fn["path"], [v])  # noqa: E731
+        hot = [ev(1 << i) for i in range(32)]
+        full = ev(0xFFFFFFFF)
+        if ev(0) != 0 or not all(isinstance(x, int) for x in hot + [full]):
+            return None
+    except (Unsupported, Panic):
+        return None
+    used = [i for i, x in enumerate(hot) if x != 0]
+    if not used:
+        return None
+    s0 = used[0]
+    if used != list(range(s0, s0 + len(used))) or any(hot[i] != 1 << (i - s0) for i in used):
+        return None
+    mask = (1 << len(used)) - 1
+    if full != mask:
+        return None
+    # linearity on two-bit words (no carries / cross terms)
+    for i in used[:3]:
+        for j in used[-3:]:
+            if i != j and ev((1 << i) | (1 << j)) != hot[i] | hot[j]:
+                return None
+    return (s0, mask)
+
+
 def or_terms(n, out):
     n = H.strip(n)
     if H.tag(n) == "bin" and n[2] == "BitOr":
@@ -133,7 +163,7 @@ def run(ctx):
         if r is None:
             continue
         n += 1
-        sm = shift_mask(r["hir"], r["params"][0][1])
+        sm = shift_mask(r["hir"], r["params"][0][1]) or shift_mask_semantic(F, r)
         if sm is None:
             ctx.violate("dt.layout", f"extractor|{name}", f"{name}(): not of the form (v >> s) & mask — review: {H.short(r['hir'])}", r["file"], r["line"])
             continue
